@@ -41,18 +41,18 @@ PROPS = {
         "oracle_engine": {"dispatch": "dispatch", "hsadv": "hs"},
         "trusted": ["handler bodies are opaque (they only decide keep-alive)", "session flags = handshake outcome; their truth is C03/C06"],
         "technique": "Lean 4 theorems (induction over the follow-on command list with the per-iteration re-check as invariant) composed with the handshake model + correspondence on a real server.Server with scripted command sequences, four kinds of client, reconnect-and-resume",
-        "level_text": "dispatch_sound (every invoked authenticated handler: registered, not raw, session meets the command's CURRENT level, identity currently authorized — all follow-on sequences, all keep-alive behaviours), levelOK_meaning, raw_path_only_raw, auth_path_never_raw, refuse_closes, raw_refuse_closes, valid_commands_sound: kernel-checked. Tied to the code by the dispatch engine: real server with per-command policies/authorization levels and 3 authorizer tables, every command sequence of length <=3 (sampled above 2) over authenticated/raw/unknown commands with random keep-alive patterns, 4 client kinds, reconnect-and-resume with another command; invoked handlers (with the stream's real encryption state) compared with the model composed with honestRun.",
+        "level_text": "dispatch_sound (every invoked authenticated handler: registered, not raw, session meets the command's CURRENT level, identity currently authorized — all follow-on sequences, all keep-alive behaviours), levelOK_meaning, raw_path_only_raw, auth_path_never_raw, refuse_closes, raw_refuse_closes, valid_commands_sound (with the authorization conjunct), valid_commands_dispatchable, no_level_never_authorized: kernel-checked. The server-side close is observed before the harness closes anything; the post-auth ValidCommands advertisement is observed, judged and compared; commands without permission levels / without own policy under a non-OPTIONAL base configuration; follow-on commands on resumed connections. Tied to the code by the dispatch engine: real server with per-command policies/authorization levels and 3 authorizer tables, every command sequence of length <=3 (sampled above 2) over authenticated/raw/unknown commands with random keep-alive patterns, 4 client kinds, reconnect-and-resume with another command; invoked handlers (with the stream's real encryption state) compared with the model composed with honestRun.",
         "level_note": "Handler bodies are opaque; the per-command policy function and authorizer are parameters (they may change between connections). The theorems assume the session flags are true (C03); the hsadv engine (C03) therefore also runs under this check and its violations count here.",
         "assumptions": ["reported session flags equal the real state (C03, C06)"],
     },
     "C06": {
         "lean": "CedarProps.C06",
-        "engines": ["resume"],
-        "oracle_engine": {"resume": "sc"},
+        "engines": ["resume", "clientcache"],
+        "oracle_engine": {"resume": "sc", "clientcache": "sc"},
         "trusted": [SYMBOLIC_CRYPTO, "time is a parameter of the model (virtual time in the engine: entries re-stored with a past expiry)"],
         "technique": "Lean 4 theorems over the cache-as-finite-map and the server resumption machine (+ replay rejection from the symbolic AAD binding) + correspondence on a real server cache with scripted requests and byte-for-byte replays",
-        "level_text": "required_auth_not_resumed, resume_needs_key (a successful resumption found a live, keyed entry; the stream is switched to that key; identity/authentication are the entry's), dead_not_resumed, invalidated_is_dead, never_stored_is_dead, other_ops_do_not_revive, expired_lookup_removes, replay_rejected + digests_differ (a frame recorded on another connection does not authenticate once request/reply carry fresh values): kernel-checked. Tied to the code by the resume engine: histories over establish/expire/renew/invalidate/gc with scripted requests (right/wrong/no key, unknown id, one character off, with/without reply, other address) and replays of both directions of a recorded resumed connection (whole/truncated).",
-        "level_note": "Guessability of session identifiers is noted, not proved. Replay protection holds for peers that send the fresh ResumeNonce (cedar both sides after the fix); a legacy peer that requests no reply gets none, so its own recorded traffic remains replayable against it — outside what cedar can bind.",
+        "level_text": "required_auth_not_resumed, resume_needs_key (a successful resumption found a live, keyed entry; the stream is switched to that key; identity/authentication are the entry's), dead_not_resumed, invalidated_is_dead, never_stored_is_dead, other_ops_do_not_revive, expired_lookup_removes, client_explicit_needs_key (a client handshake naming a cached session by id resumes only a keyed AES-GCM entry — did not hold of the code as found, F-C06-client-explicit-keyless), replay_rejected + digests_differ (a frame recorded on another connection does not authenticate once request/reply carry fresh values): kernel-checked. Tied to the code by the resume engine: histories over establish/expire/renew/invalidate/gc with scripted requests (right/wrong/no key, unknown id, one character off, with/without reply, other address) and replays of both directions of a recorded resumed connection (whole/truncated).",
+        "level_note": "Guessability of session identifiers is noted, not proved. Replay protection holds for peers that send the fresh ResumeNonce (cedar both sides after the fix); a legacy peer that requests no reply gets none, so the server contributes no fresh value and the recorded client->server bytes of such a connection re-authenticate on a fresh server connection while the session lives: driven by the engine (scripted key-holding requester with ResumeResponse=false, its byte stream replayed) and recorded as known finding F-C06-noreply-replay (key C06:replay-c2s-noreply); proved in the model as noreply_replay_fails (witness) with noreply_digests_repeat (the freshness hypothesis of replay_rejected is what fails) next to reply_replay_rejected (the part that holds).",
         "assumptions": ["a receive error is terminal"],
     },
     "C07": {
@@ -149,7 +149,7 @@ PROPS["C16"] = {'assumptions': ['HKDF-SHA256 is injective on the secrets in use 
              'resumption handshake modelled as: both ends key their streams from their cache entries, data delivered iff the keys agree (symbolic AEAD); tied '
              'to the code by real client/server handshakes']}
 
-PROPS["C18"] = {'assumptions': ["the transport delivers the client's result code (otherwise see client_cleanup_fails)",
+PROPS["C18"] = {'assumptions': ["the transport delivers the client's result code (otherwise the directory may stay: observation recorded by the engine, outside the quantifier)",
                  '/tmp is a real directory; mkdir/rmdir/lstat behave as documented'],
  'engines': ['fspath'],
  'lean': 'CedarProps.C18',
@@ -158,8 +158,8 @@ PROPS["C18"] = {'assumptions': ["the transport delivers the client's result code
  'level_text': "validate_shape (accepted => path = base/leaf, single safe component, recognised shape, address-qualified names only for the connection's own "
                'endpoint), addr_qualified_names_peer, rejects_everything_else with rejects_{relative,noncanonical,nested,other_parent,traversal}, '
                'client_effects / client_mkdir_confined / at_most_one_mkdir / client_refuses / client_no_path_no_effect (every first message, every '
-               'environment), client_cleanup_partial (every continuation once the result code was handed to the transport), client_cleanup_fails (recorded '
-               'observation: a failing send of the result code leaves the directory), server_accepts_only / server_identity_only_on_accept / '
+               'environment), client_cleanup (every environment and every continuation, a cancelled context while waiting for the verdict included: whatever '
+               'was created is removed), server_accepts_only / server_identity_only_on_accept / '
                'server_success_means_verdict_zero: kernel-checked over the model. Tied to the code by the fspath engine: path grammar + mutations through '
                'validateFSAuthPath, fsAddrLeaf, verifyFSPathEndpoint (hooks), filepath and net.ParseIP against the transcriptions, whole client exchanges '
                'against a scripted server with before / at-reply / after filesystem snapshots, whole server exchanges against 25 kinds of object left at the '
@@ -217,7 +217,7 @@ PROPS["C20"] = {'assumptions': ['crypto/rand draws do not repeat and cannot be g
  'level_text': 'returns_only_matching, rogues_closed_never_returned (every arrival order and interleaving: the returned connection presented exactly the '
                'generated id under CCB_REVERSE_CONNECT, everything else is closed and not returned), broker_failure_ends / broker_failure_genuine / '
                'attempt_result_final, proxied_returns_iff / proxied_failure_ends, dial_returns_only_matching (any number of brokers, any subset working, any '
-               'completion order), at_most_one, id_fresh, connect_id_source (GenerateConnectID draws from crypto/rand and reads no package-level state: regenerated table), other_requests_id_never_returned: kernel-checked over the event model. Tied to the code by the ccb '
+               'completion order), at_most_one, id_fresh, connect_id_source (GenerateConnectID draws from crypto/rand and reads no package-level state: regenerated table), connect_id_origins (every ClaimId ccb/ puts on the wire or matches a hello against is traced to a GenerateConnectID call or to the ad received from the peer; math/rand only for the declared non-cryptographic uses), other_requests_id_never_returned: kernel-checked over the event model. Tied to the code by the ccb '
                'engine: every arrival order of <=3 (thorough <=4) connections over 8 greeting classes plus random longer sequences with byte-level varieties '
                'on the real accept loop; broker reply x replayed hello on the real proxied request; real ccb.Dial with rogue connections around the legitimate '
                'one, success/failure/no reply racing the reverse connection, proxied and nested contacts, 1-3 brokers (working, failing, refusing, dead), '
@@ -351,7 +351,7 @@ PROPS["C17"] = {'assumptions': ["sync.Mutex / sync.RWMutex mutual exclusion, syn
  'level_text': 'lockset_sound (Eraser soundness for any number of threads over mutexes with a shared mode), cache_discipline (every method of SessionCache / '
                'SessionEntry in the regenerated fact table obeys the declared guard policy and releases its locks, hence no interleaving of any threads '
                'calling any of them on any objects has a data race on any field), cache_atomic_sections (each cache method is one critical section), '
-               'globals_once, invalidate_wins + wf_reachable (in every linearization nothing returns an invalidated id until it is stored again), sweep_count, '
+               'globals_once, invalidate_wins + wf_reachable (in every linearization nothing returns an invalidated id until it is stored again), resumption_path_never_stores + invalidate_wins_resumption (the stored-again hypothesis discharged from the code for resumptions in flight: regenerated table of cache calls on both resumption paths lists no Store), fact_tables_inhabited, sweep_count, '
                'config_not_written (every library NewAuthenticator call site hands over a copy; only declared writes through configurations), '
                'handshakes_isolated (all interleavings, one copy per connection) with sharing_disturbs as the recorded reason, established_after_handshake, '
                'directions_independent (every interleaving of send and receive operations on an established stream shows each goroutine exactly what it sees '
@@ -437,6 +437,6 @@ PROPS["C08"]["level_text"] += (
     "(order and spacing free).")
 PROPS["C09"]["level_text"] += (
     " Added: types_independent_of_scope_private / scope_types_legacy_fails (model PrivacyScope: the evaluated type trailer does not depend on private "
-    "attributes of the ad's PARENT / TARGET scopes - defect found and fixed, a1f9ffc). Engine: several ads through ONE Message with crypto-mode "
+    "attributes of the ad's PARENT / TARGET scopes - defect found and fixed, ce45501). Engine: several ads through ONE Message with crypto-mode "
     "changes in between; type expressions over TARGET / PARENT scopes.")
 
